@@ -194,6 +194,8 @@ class Runner:
         p = e["p"]
         key = jax.random.key(int(case["key"]))
         self.want = set(case.get("want", ["assess", "undo", "alt"]))
+        # concrete Python ints / bools as top-level arguments (switch index, mask flag, ...) for some eager histories
+        self.concrete = bool(case.get("concrete", False)) and self.mode == "eager"
         tr = None
         cur_argsV = None
         for seq, rq in enumerate(case["ops"]):
@@ -205,7 +207,7 @@ class Runner:
                   "pre": self.proj_trace(pid, tr) if tr is not None else T0, "post": T0, "w": 0,
                   "assess": {"status": "none", "score": 0, "ret": gb.NN}, "disc": [], "hasdisc": False,
                   "retdiff": [], "undo": {"status": "none", "post": T0, "w": 0},
-                  "alt": {"status": "none", "post": T0, "w": 0}, "alt2": {"status": "none", "post": T0, "w": 0}, "alt3": {"status": "none", "post": T0, "w": 0}, "altm": {"status": "none", "post": T0, "w": 0}, "flagmode": "none", "consform": 0,
+                  "alt": {"status": "none", "post": T0, "w": 0}, "alt2": {"status": "none", "post": T0, "w": 0}, "alt3": {"status": "none", "post": T0, "w": 0}, "altm": {"status": "none", "post": T0, "w": 0}, "flagmode": "none", "consform": 0, "argmode": "array",
                   "subt": {"choices": [], "score": 0}, "w2": 0, "haspre": tr is not None, "extra": []}
             try:
                 newtr = self.step(ev, rq, e, p, tr, cur_argsV, k1, k2, k3)
@@ -249,8 +251,9 @@ class Runner:
         pstruct = [[c["p"], "-"] for c in plain]
         if op in ("simulate", "generate"):
             argsV = e["as"][rq["a"] - 1]
-            args = gb.call_args(p, argsV)
+            args = gb.call_args(p, argsV, self.concrete)
             ev["reqargs"] = argsV
+            ev["argmode"] = "python" if self.concrete else "array"
             if op == "simulate":
                 new = self.fn(_skey(pid, "sim"), lambda: (lambda k, a: gf.simulate(k, a)))(k1, args)
                 ev["post"] = self.proj_trace(pid, new)
@@ -307,7 +310,8 @@ class Runner:
         if clo:
             old_args = gb.call_args(p, cur_argsV)          # the extra arguments the closure was called with
         argsV = e["as"][rq["a"] - 1] if rq.get("a", 0) > 0 and op != "index" else cur_argsV
-        new_args = gb.call_args(p, argsV)
+        new_args = gb.call_args(p, argsV, self.concrete)
+        ev["argmode"] = "python" if self.concrete else "array"
         changed = [not _eq(a, b) for a, b in zip(argsV, cur_argsV)]
         if op == "index":
             tags = ["N"] * len(argsV)
